@@ -3,7 +3,12 @@ Dimensions: history (hidden process-global name generators, aliasing between res
 fork, so the step list IS the history), schedule (hash seed x renaming)."""
 import copy
 
-from props.common import call, viol, hx
+from props.common import call as _call, viol, hx
+
+
+def call(env, fn, *a, **k):
+    k.setdefault('budget', 20_000_000)      # termination is not what this property is about: generous budget, see DESIGN 8.6
+    return _call(env, fn, *a, **k)
 from sim.objects import build, snapshot, order_fingerprint
 from ref import fa
 from gen import fa as genfa, names, edits
